@@ -94,6 +94,36 @@ def run(R, ctx):
     log_reports(R, ctx, ed)
     panics(R, ctx, sites)
     error_channel(R, ctx)
+    if ctx.has('compress'):
+        # compression: every step guards the next, the original is removed last, and the encoder's sink cannot swallow a failing write
+        # (shared with R07.2): a failure keeps the original and travels up to write_buffer, which reports it
+        R.rule('R19.8', 'compression chain: a failing step keeps the original and is propagated (shared with R07.2)')
+        import c07 as _c07
+        _c07.classification(_Fwd(R, 'R19.8', want=('R07.2',)), ctx)
+
+class _Fwd:
+    """forward only the obligations of the wanted source rules of another property's module under this property's rule id"""
+
+    def __init__(self, R, to, want):
+        self.R, self.to, self.want = R, to, want
+        self.stats = R.stats
+        self.known = {}
+
+    def rule(self, *a, **kw):
+        pass
+
+    def check(self, rule, *a, **kw):
+        if rule in self.want:
+            return self.R.check(self.to, *a, **kw)
+        return a[1] if len(a) > 1 else True
+
+    def bad(self, rule, *a, **kw):
+        if rule in self.want:
+            return self.R.bad(self.to, *a, **kw)
+
+    def ok(self, rule, *a, **kw):
+        if rule in self.want:
+            return self.R.ok(self.to, *a, **kw)
 
 
 class _Only:
